@@ -813,6 +813,9 @@ int run_generated() {
     // large trees: retracing / fix-up paths longer than anything a small universe can produce (height > 16 needs ~100 000 ascending keys)
     long idx = 0;
     vector<int> sizes = thorough ? vector<int>{131079, 524295, 1048583} : vector<int>{131079};
+    // C12: sizes on both sides of 2^16 (a node counter or index narrower than int shows there); the balanced variants only - a plain BST
+    // fed with these key patterns is a list
+    if (prop == "C12") sizes = thorough ? vector<int>{65535, 65536, 65537, 70001, 131079} : vector<int>{65536, 70001};
     for (int type = 1; type <= 2 && !g_failed; type++)
       for (int n : sizes)
         for (int pat = 0; pat < 4 && !g_failed; pat++) {
